@@ -30,6 +30,7 @@ type genCtx struct {
 	hostile  bool
 	symlinks bool
 	layer    bool
+	denorm   bool // spell some names non-canonically (exclusion prefixes are in force)
 }
 
 func (g *genCtx) comp() string {
@@ -286,6 +287,10 @@ func (g *genCtx) genEntries(n int, existing []string) ([]*tar.Header, []string) 
 				body = randData(r)
 			}
 		}
+		if g.denorm && r.chance(1, 4) && !strings.HasPrefix(name, "/") {
+			// the same path spelled differently: exclusion is decided on the cleaned name
+			name = r.pick([]string{"./", "zz/../", "./././", "a/b/../../"}) + name
+		}
 		h.Name = name
 		if h.Typeflag == tar.TypeReg {
 			h.Size = int64(len(body))
@@ -429,7 +434,26 @@ func genFsCase(r *Rng, family string) *FsCase {
 	if c.Opts.Overlay {
 		g.layer = true // whiteout-named entries are what the overlay converter acts on
 	}
+	g.denorm = len(c.Opts.Excludes) > 0
 	c.Hdrs, c.Bodies = g.genEntries(1+r.intn(7), existing)
+	// a destination whose own name looks like a whiteout or an opaque marker, with an entry that names the
+	// destination itself: the guards on the whiteout's directory and target are what keeps the siblings safe
+	if (op == "layer" || op == "untar") && dest == "/w/dest" && r.chance(1, 14) {
+		nd := r.pick([]string{"/w/.wh..wh..opq", "/w/.wh.dest2", "/w/.wh.secret", "/w/.wh.outdir"})
+		for i := range c.Nodes {
+			if c.Nodes[i].Path == "/w/dest" {
+				c.Nodes[i].Path = nd
+			} else if strings.HasPrefix(c.Nodes[i].Path, "/w/dest/") {
+				c.Nodes[i].Path = nd + strings.TrimPrefix(c.Nodes[i].Path, "/w/dest")
+			}
+		}
+		sort.SliceStable(c.Nodes, func(i, j int) bool { return c.Nodes[i].Path < c.Nodes[j].Path })
+		c.Dest = nd
+		h := &tar.Header{Name: r.pick([]string{"./", ".", "a/..", "a/../"}), Typeflag: tar.TypeDir, Mode: 0o755, ModTime: time.Unix(1700000000, 0)}
+		at := r.intn(len(c.Hdrs) + 1)
+		c.Hdrs = append(c.Hdrs[:at], append([]*tar.Header{h}, c.Hdrs[at:]...)...)
+		c.Bodies = append(c.Bodies[:at], append([]string{""}, c.Bodies[at:]...)...)
+	}
 	return c
 }
 
